@@ -47,6 +47,9 @@ func (fr *Frame) assignedInLoop(li *loopInfo) (map[string]bool, bool) {
 			case *ssa.Next:
 				if it := fr.iters[x.Iter]; it != nil && it.isMap {
 					out[it.visited] = true
+					if it.count != "" {
+						out[it.count] = true
+					}
 				}
 			case *ssa.Call:
 				a, al := fr.callAssigns(&x.Call)
@@ -320,7 +323,10 @@ func (fr *Frame) rangeInstr(x *ssa.Range) {
 		m := fr.val(x.X).T
 		ex.memSet(fr.curMem, vis, fmt.Sprintf("((as const (Array %s Bool)) false)", ks))
 		eh := ex.define("entryhas", Sort(fmt.Sprintf("(Array %s Bool)", ks)), fmt.Sprintf("(select %s %s)", ex.memGet(fr.curMem, has), m))
-		fr.iters[x] = &iterInfo{isMap: true, mt: t, mref: m, visited: vis, entryHas: eh}
+		cntName := fmt.Sprintf("IT%d_count", ex.cnt)
+		ex.arraySort(cntName, SInt)
+		ex.memSet(fr.curMem, cntName, "0")
+		fr.iters[x] = &iterInfo{isMap: true, mt: t, mref: m, visited: vis, entryHas: eh, count: cntName, rangeInstr: x}
 	case *types.Basic:
 		fr.iters[x] = &iterInfo{str: fr.val(x.X)}
 		panic(engineErr("range over string not supported"))
@@ -347,6 +353,17 @@ func (fr *Frame) next(x *ssa.Next) {
 		ks, ex.mapHas(fr.curMem, mt, it.mref, "kk"), it.entryHas, vis, vis)), fr.curReach)
 	v := ex.define(x.Name()+"_v", vs, ex.mapVal(fr.curMem, mt, it.mref, k))
 	ex.memSet(fr.curMem, it.visited, ite(ok, fmt.Sprintf("(store %s %s true)", vis, k), vis))
+	if it.count != "" {
+		cnt := ex.memGet(fr.curMem, it.count)
+		// when the loop does not change the map, the number of keys produced at exit is the length of the map
+		if fr.mapUnchangedInLoopOf(x) {
+			has, _, _, _ := ex.mapArrays(mt)
+			_ = has
+			ex.assume(implies(not(ok), fmt.Sprintf("(= %s (select %s %s))", cnt, ex.memGet(fr.curMem, "ML"), it.mref)), fr.curReach)
+			ex.assume(implies(ok, fmt.Sprintf("(< %s (select %s %s))", cnt, ex.memGet(fr.curMem, "ML"), it.mref)), fr.curReach)
+		}
+		ex.memSet(fr.curMem, it.count, ite(ok, fmt.Sprintf("(+ %s 1)", cnt), cnt))
+	}
 	fr.tuples[x] = []Val{{T: ok, S: SBool, G: types.Typ[types.Bool]}, {T: k, S: ks, G: mt.Key()}, {T: v, S: vs, G: mt.Elem()}}
 	ex.typeAssume(fr.tuples[x][1], mt.Key(), fr.curReach, false)
 	ex.typeAssume(fr.tuples[x][2], mt.Elem(), fr.curReach, false)
@@ -482,4 +499,25 @@ func isCountingPhi(li *loopInfo, phi *ssa.Phi) bool {
 		}
 	}
 	return true
+}
+
+// mapUnchangedInLoopOf: the loop that contains the Next instruction neither inserts into nor deletes from any map of
+// the ranged map's type and calls nothing that could (conservative, syntactic).
+func (fr *Frame) mapUnchangedInLoopOf(x *ssa.Next) bool {
+	var li *loopInfo
+	for _, l := range fr.loops {
+		if l.body[x.Block()] && (li == nil || len(l.body) < len(li.body)) {
+			li = l
+		}
+	}
+	if li == nil {
+		return false
+	}
+	assigned, all := fr.assignedInLoop(li)
+	if all || assigned["*lib"] || assigned["*mem"] {
+		return false
+	}
+	it := fr.iters[x.Iter]
+	has, _, _, _ := fr.ex.mapArrays(it.mt)
+	return !assigned[has] && !assigned["ML"]
 }
